@@ -56,8 +56,8 @@ Feed2(e1, e2) == LET r1 == LockApply(pst, e1)
                  IN /\ pst' = r2.p
                     /\ pbad' = pbad \cup r1.bad \cup r2.bad
 
-H(t, c) == [w |-> "t", t |-> t, c |-> c, at |-> K.nh]
-HE(t, c) == [w |-> "e", t |-> t, c |-> c, at |-> K.nh]
+H(t, c) == [w |-> "t", t |-> t, c |-> c, at |-> K.nh, cyc |-> K.cycle]
+HE(t, c) == [w |-> "e", t |-> t, c |-> c, at |-> K.nh, cyc |-> K.cycle]
 
 ResOf(r) == IF ~IsExc(r) THEN "ok" ELSE IF IsCancel(r) THEN "cancelled" ELSE "error"
 
